@@ -2535,24 +2535,30 @@ PPL::Polyhedron::simplify_using_context_assign(const Polyhedron& y) {
             sat_i.set(j);
           }
         }
-        if (sat_i.empty() && num_non_redundant_eq < needed_non_redundant_eq) {
-          // `non_redundant_ineq_i' is actually masking an equality
-          // and we are still looking for some masked inequalities.
-          // Iteration goes downwards, so the inequality comes from x_cs.
-          PPL_ASSERT(i >= y_cs_num_ineq);
-          // Check if the equality is independent in eqs.
-          Constraint masked_eq = non_redundant_ineq_i;
-          masked_eq.set_is_line_or_equality();
-          masked_eq.sign_normalize();
-          if (add_to_system_and_check_independence(eqs, masked_eq)) {
-            // It is independent: add the _inequality_ to non_redundant_eq.
-            non_redundant_eq.insert(non_redundant_ineq_i);
-            ++num_non_redundant_eq;
+        if (sat_i.empty() && i >= y_cs_num_ineq
+            && needed_non_redundant_eq > 0) {
+          // `non_redundant_ineq_i' comes from x_cs and is actually masking
+          // an equality in the context of y.
+          // Note: the equality is the consequence of several inequalities
+          // (e.g., `B <= 0' and `A + B >= 0' in the context `A = 0'):
+          // all the inequalities of x masking an equality are kept, since
+          // dropping any of them may lose one of the two directions.
+          if (num_non_redundant_eq < needed_non_redundant_eq) {
+            // Check if the equality is independent in eqs.
+            Constraint masked_eq = non_redundant_ineq_i;
+            masked_eq.set_is_line_or_equality();
+            masked_eq.sign_normalize();
+            if (add_to_system_and_check_independence(eqs, masked_eq)) {
+              ++num_non_redundant_eq;
+            }
           }
+          // Add the _inequality_ to non_redundant_eq.
+          non_redundant_eq.insert(non_redundant_ineq_i);
         }
       }
-      // Here we have already found all the needed (masked) equalities.
-      PPL_ASSERT(num_non_redundant_eq == needed_non_redundant_eq);
+      // Here we have already found all the needed (masked) equalities
+      // coming from x (the other ones are masked by inequalities of y).
+      PPL_ASSERT(num_non_redundant_eq <= needed_non_redundant_eq);
 
       drop_redundant_inequalities(non_redundant_ineq_p, x.topology(),
                                   sat, z_cs_num_eq);
